@@ -1413,9 +1413,13 @@ func checkStrongSumFresh(p *Prog, r *Report) {
 			}
 		}
 		allCalls(fn, func(c ssa.CallInstruction) {
-			if calleeName(c) != "bytes.Equal" || len(adv) == 0 {
+			if calleeName(c) != "bytes.Equal" {
 				return
 			}
+			// In a helper without an offset loop of its own (findMatch) locals are
+			// fresh per call, i.e. per offset; only a captured or field-held value
+			// could survive (judged below: a FreeVar cell has no dominating store here).
+			helperOnly := len(adv) == 0 && fn != hs
 			for _, arg := range c.Common().Args {
 				sl, ok := arg.(*ssa.Slice)
 				if !ok {
@@ -1476,6 +1480,17 @@ func checkStrongSumFresh(p *Prog, r *Report) {
 									stores = append(stores, st)
 								}
 							}
+							if helperOnly {
+								dom := false
+								for _, st := range stores {
+									if InstrDominates(st, x) {
+										dom = true
+									}
+								}
+								if !dom {
+									bad = "it is kept in a captured variable and no store in this call dominates its use at " + p.Pos(instrPos(x))
+								}
+							}
 						default:
 							return
 						}
@@ -1500,6 +1515,9 @@ func checkStrongSumFresh(p *Prog, r *Report) {
 				}
 				walk(v, 0)
 				if !isLocal {
+					continue
+				}
+				if len(adv) == 0 && !helperOnly {
 					continue
 				}
 				n++
